@@ -125,7 +125,15 @@ def drive(ctx, tier, per_case, profile='full', cfgs=None, checkpoint=True):
             for mode, cs in by_mode.items():
                 with un.dict_mode(mode):
                     for cfg in cs:
-                        per_case(tree, leaves, dsl, cfg)
+                        try:
+                            per_case(tree, leaves, dsl, cfg)
+                        except Exception as ex:  # noqa: BLE001
+                            # an operation the reference model says must succeed raised
+                            import traceback  # noqa: PLC0415
+
+                            ctx.violation('unexpected-exception',
+                                          f'{ctx.prop_id}:unexpected-exception:{type(ex).__name__}',
+                                          {'tree': dsl, 'cfg': cfg}, traceback.format_exc()[-1500:])
             if len(ctx.samples) < 3 and gen.dsl_size(dsl) >= 4:
                 ctx.sample({'tree': gen.dsl_repr(dsl), 'configs': len(cfgs)})
 
